@@ -69,6 +69,7 @@ let runners : (string * (z list -> z list)) list = [
   "sol", run_sol;
   "buf", run_buf;
   "fnode", run_fnode;
+  "mon", run_mon;
   "suspend", run_suspend;
   "once", run_once;
 ]
